@@ -5,7 +5,6 @@ import dumplib as D
 import rig.links as L
 
 import ast
-import hashlib
 import inspect
 import warnings
 
@@ -30,14 +29,65 @@ def strip_doc(node):
     return body
 
 
-def digest(node):
-    """digest of a function's signature and statements (docstring, comments and layout excluded)"""
-    text = ast.dump(node.args) + "".join(ast.dump(x) for x in strip_doc(node))
-    return hashlib.sha1(text.encode()).hexdigest()[:16]
+class Mismatch(Exception):
+    pass
 
 
-class Randint(ast.NodeTransformer):
-    """random.randint(a, b) -> randint(a, b): the draw is the explicit oracle function of the model"""
+def match(t, n, holes, where="body"):
+    """Match source node n against template node t.  A template Name `HOLE_x` (as an expression, or alone
+    as an expression statement) matches any expression / any single statement, recorded in holes[x].
+    Everything else must have the same node type and the same fields."""
+    if isinstance(t, ast.Expr) and isinstance(t.value, ast.Name) and t.value.id.startswith("HOLE_"):
+        if not isinstance(n, ast.stmt):
+            raise Mismatch("%s: expected a statement" % where)
+        holes[t.value.id[5:]] = n
+        return
+    if isinstance(t, ast.Name) and t.id.startswith("HOLE_"):
+        if not isinstance(n, ast.expr):
+            raise Mismatch("%s: expected an expression" % where)
+        holes[t.id[5:]] = n
+        return
+    if type(t) is not type(n):
+        raise Mismatch("%s: %s where the model expects %s (line %s)"
+                       % (where, type(n).__name__, type(t).__name__, getattr(n, "lineno", "?")))
+    for f in t._fields:
+        if f in ("ctx", "type_comment", "kind"):
+            continue
+        a, b = getattr(t, f, None), getattr(n, f, None)
+        w = "%s.%s" % (type(t).__name__, f)
+        if isinstance(a, list):
+            if not isinstance(b, list) or len(a) != len(b):
+                raise Mismatch("%s: %d items where the model expects %d (line %s)"
+                               % (w, len(b) if isinstance(b, list) else -1, len(a), getattr(n, "lineno", "?")))
+            for x, y in zip(a, b):
+                match(x, y, holes, w)
+        elif isinstance(a, ast.AST):
+            if not isinstance(b, ast.AST):
+                raise Mismatch("%s: missing" % w)
+            match(a, b, holes, w)
+        elif a != b:
+            raise Mismatch("%s: %r where the model expects %r (line %s)" % (w, b, a, getattr(n, "lineno", "?")))
+
+
+def match_function(module, qualname, template):
+    node = function_node(module, qualname)
+    t = ast.parse(template).body[0]
+    holes = {}
+    try:
+        match(t.args, node.args, holes, "parameters")
+        tb, nb = strip_doc(t), strip_doc(node)
+        if len(tb) != len(nb):
+            raise Mismatch("%d top-level statements where the model expects %d" % (len(nb), len(tb)))
+        for x, y in zip(tb, nb):
+            match(x, y, holes)
+    except Mismatch as e:
+        raise SystemExit("Unsupported: %s no longer has the shape the model follows -- %s" % (qualname, e))
+    return holes
+
+
+class Rewrite(ast.NodeTransformer):
+    """random.randint(a, b) -> randint(a, b) (the draw is the oracle function `rint` of the model);
+    `<name> is not None` -> has_<name> (a boolean parameter of the translated fragment)"""
 
     def visit_Call(self, node):
         self.generic_visit(node)
@@ -48,74 +98,187 @@ class Randint(ast.NodeTransformer):
                                               keywords=[]), node)
         return node
 
+    def visit_Compare(self, node):
+        self.generic_visit(node)
+        if isinstance(node.left, ast.Name) and len(node.ops) == 1 and isinstance(node.ops[0], ast.IsNot) \
+                and isinstance(node.comparators[0], ast.Constant) and node.comparators[0].value is None:
+            return ast.copy_location(ast.Name(id="has_" + node.left.id, ctx=ast.Load()), node)
+        return node
 
-def shapes(expected):
-    """Unit GenGeometryShapes: (1) the tail of shortest_torus_path after `x, y, z = minimise_xyz(vector)`
-    (the spiral adjustment with its max_spirals arithmetic) translated statement by statement by py2v into
-    `torus_spiral`, with random.randint as the function argument rint; (2) for every hand-modelled
-    function a digest of its statements, compared with the digest of the text the model was written and
-    validated against (tools/units_c11.py): a changed text fails the unit (fail closed) until the model
-    has been re-validated against it."""
+
+def synth(name, params, stmts, ret_names, ret, pre="", calls=None, extra_binder=""):
+    """translate the given source statements as the body of a function of its own with py2v"""
     import py2v
-    import rig.geometry
+    body = ast.parse(pre).body + [Rewrite().visit(st) for st in stmts]
+    if ret_names:
+        body += ast.parse("return (%s)" % ", ".join(ret_names)).body
+    fn = ast.FunctionDef(name=name,
+                         args=ast.arguments(posonlyargs=[], args=[ast.arg(arg=a) for a in params],
+                                            kwonlyargs=[], kw_defaults=[], defaults=[]),
+                         body=body, decorator_list=[], type_params=[])
+    ast.fix_missing_locations(fn)
+    spec = dict(name=name, coq=name, params=params, ret=ret)
+    text = py2v.Fn(fn, spec, calls or {}).translate()
+    if extra_binder:
+        text = text.replace("Definition %s " % name, "Definition %s %s " % (name, extra_binder), 1)
+    return text
+
+
+def expr_Z(e, types):
+    import py2v
+    f = py2v.Fn(None, dict(name="<expression>"), {})
+    f.types = dict(types)
+    callees = set(id(n.func) for n in ast.walk(e) if isinstance(n, ast.Call))
+    for n in ast.walk(e):
+        if isinstance(n, ast.Name) and id(n) not in callees and n.id not in types:
+            raise SystemExit("Unsupported: name %s in a translated expression" % n.id)
+        if isinstance(n, ast.Name) and id(n) in callees and n.id not in ("max", "min", "abs"):
+            raise SystemExit("Unsupported: call of %s in a translated expression" % n.id)
+    return f
+
+
+T_MESH_PATH = """
+def shortest_mesh_path(source, destination):
+    return minimise_xyz(HOLE_component for s, d in zip(source, destination))
+"""
+
+T_TORUS_PATH = """
+def shortest_torus_path(source, destination, width, height):
+    HOLE_h0
+    HOLE_h1
+    HOLE_h2
+    HOLE_h3
+    HOLE_h4
+    approaches = [(HOLE_d0, HOLE_v0), (HOLE_d1, HOLE_v1), (HOLE_d2, HOLE_v2), (HOLE_d3, HOLE_v3)]
+    _, vector = min(approaches, key=(lambda a: (a[0], random.random())))
+    x, y, z = minimise_xyz(vector)
+    HOLE_spiral
+    return (x, y, z)
+"""
+
+T_LDF = """
+def longest_dimension_first(vector, start=(0, 0), width=None, height=None):
+    x, y = start
+    out = []
+    for dimension, magnitude in sorted(enumerate(vector), key=(lambda x: abs(x[1]) + random.random()),
+                                       reverse=True):
+        if magnitude == 0:
+            break
+        sign = HOLE_sign
+        for _ in range(HOLE_count):
+            HOLE_delta
+            HOLE_a0
+            HOLE_a1
+            HOLE_a2
+            HOLE_a3
+            direction = Links.from_vector((dx, dy))
+            out.append((direction, (x, y)))
+    return out
+"""
+
+T_HEXAGONS = """
+def concentric_hexagons(radius, start=(0, 0)):
+    x, y = start
+    yield (x, y)
+    for r in range(HOLE_first, radius + 1):
+        y -= HOLE_step
+        for dx, dy in HOLE_dirs:
+            for _ in range(r):
+                yield (x, y)
+                x += dx
+                y += dy
+"""
+
+
+def int_literal(e, what):
+    try:
+        v = ast.literal_eval(e)
+    except Exception:
+        raise SystemExit("Unsupported: %s is not a literal" % what)
+    return v
+
+
+def shapes():
+    """Unit GenGeometryShapes.  Each hand-modelled function of Model/Geometry.v is matched against the
+    skeleton the model follows (loops, generator, the min / sorted calls with their key functions); the
+    arithmetic and the constants inside the skeleton are holes, translated from the current source text
+    by py2v (expressions and statement groups) or read as literals.  The model is built from these
+    definitions, so a change inside a hole changes the definitions the theorems are about; a change of the
+    skeleton is Unsupported (fail closed)."""
     import importlib
+    import rig.geometry
     utils = importlib.import_module("rig.place_and_route.route.utils")
-    found = {
-        "shortest_mesh_path": digest(function_node(rig.geometry, "shortest_mesh_path")),
-        "shortest_torus_path": digest(function_node(rig.geometry, "shortest_torus_path")),
-        "concentric_hexagons": digest(function_node(rig.geometry, "concentric_hexagons")),
-        "longest_dimension_first": digest(function_node(utils, "longest_dimension_first")),
-    }
-    node = function_node(rig.geometry, "shortest_torus_path")
-    body = strip_doc(node)
-    cut = [i for i, st in enumerate(body)
-           if isinstance(st, ast.Assign) and isinstance(st.value, ast.Call)
-           and isinstance(st.value.func, ast.Name) and st.value.func.id == "minimise_xyz"
-           and isinstance(st.targets[0], ast.Tuple)
-           and [getattr(e, "id", None) for e in st.targets[0].elts] == ["x", "y", "z"]]
-    if len(cut) != 1:
-        raise SystemExit("shortest_torus_path: `x, y, z = minimise_xyz(...)` not found exactly once")
-    tail = [Randint().visit(st) for st in body[cut[0] + 1:]]
+    out = ["(* GENERATED by tools/dump_c11.py shapes from the current /repo sources -- do not edit. *)",
+           "From Coq Require Import ZArith Bool List.", "Import ListNotations.", "Open Scope Z_scope.", ""]
+
+    # ---- shortest_mesh_path
+    h = match_function(rig.geometry, "shortest_mesh_path", T_MESH_PATH)
+    f = expr_Z(h["component"], {"s": "Z", "d": "Z"})
+    out += ["(* rig/geometry.py : shortest_mesh_path, the component expression of its generator *)",
+            "Definition mesh_path_component (s : Z) (d : Z) : Z :=\n  %s.\n" % f.as_Z(h["component"])]
+
+    # ---- shortest_torus_path
+    h = match_function(rig.geometry, "shortest_torus_path", T_TORUS_PATH)
+    out += ["(* rig/geometry.py : shortest_torus_path, the five statements before `approaches = ...` *)",
+            synth("torus_head", {"source": "Z3", "destination": "Z3", "width": "Z", "height": "Z"},
+                  [h["h%d" % i] for i in range(5)], ["w", "h", "dx", "dy"], "Z4")]
+    items = []
+    for i in range(4):
+        types = {"w": "Z", "h": "Z", "dx": "Z", "dy": "Z"}
+        fd = expr_Z(h["d%d" % i], types)
+        fv = expr_Z(h["v%d" % i], types)
+        v, t = fv.expr(h["v%d" % i])
+        if t != "Z3":
+            raise SystemExit("Unsupported: approach %d does not carry a 3-vector" % i)
+        items.append("(%s, %s)" % (fd.as_Z(h["d%d" % i]), v))
+    out += ["(* rig/geometry.py : shortest_torus_path, the list `approaches` *)",
+            "Definition torus_approaches_src (w : Z) (h : Z) (dx : Z) (dy : Z) : list (Z * (Z * Z * Z)) :=\n  [%s].\n"
+            % ";\n   ".join(items)]
     # max_spirals and d are assigned in two of the three branches only; initialising them (they are dead
     # after the if) lets the translator merge the branches
-    pre = ast.parse("max_spirals = 0\nd = 0").body
-    fn = ast.FunctionDef(name="torus_spiral",
-                         args=ast.arguments(posonlyargs=[], args=[ast.arg(arg=a) for a in
-                                                                  ["x", "y", "z", "width", "height"]],
-                                            kwonlyargs=[], kw_defaults=[], defaults=[]),
-                         body=pre + tail, decorator_list=[], type_params=[])
-    ast.fix_missing_locations(fn)
-    spec = dict(name="torus_spiral", coq="torus_spiral",
-                params={"x": "Z", "y": "Z", "z": "Z", "width": "Z", "height": "Z"}, ret="Z3")
-    text = py2v.Fn(fn, spec, {"randint": ("rint", ["Z", "Z"], "Z")}).translate()
-    text = text.replace("Definition torus_spiral ", "Definition torus_spiral (rint : Z -> Z -> Z) ", 1)
-    out = ["(* GENERATED by tools/dump_c11.py shapes from the current /repo sources -- do not edit. *)",
-           "From Coq Require Import ZArith Bool String.", "Open Scope Z_scope.", "",
-           "(* rig/geometry.py : shortest_torus_path, statements after `x, y, z = minimise_xyz(vector)` *)",
-           text, "",
-           "(* digests of the statements of the hand-modelled functions (Model/Geometry.v) *)"]
-    bad = []
-    for name in sorted(found):
-        out.append('Definition shape_%s : string := "%s"%%string.' % (name, found[name]))
-        if expected.get(name) != found[name]:
-            bad.append("%s: the text has digest %s, the model was validated against %s"
-                       % (name, found[name], expected.get(name)))
-    if bad:
-        raise SystemExit("hand-modelled source changed -- " + "; ".join(bad))
+    out += ["(* rig/geometry.py : shortest_torus_path, the statement after `x, y, z = minimise_xyz(vector)` *)",
+            synth("torus_spiral", {"x": "Z", "y": "Z", "z": "Z", "width": "Z", "height": "Z"}, [h["spiral"]],
+                  ["x", "y", "z"], "Z3", pre="max_spirals = 0\nd = 0",
+                  calls={"randint": ("rint", ["Z", "Z"], "Z")}, extra_binder="(rint : Z -> Z -> Z)")]
+
+    # ---- longest_dimension_first
+    h = match_function(utils, "longest_dimension_first", T_LDF)
+    f = expr_Z(h["sign"], {"magnitude": "Z"})
+    v, t = f.expr(h["sign"])
+    if t != "Z":
+        raise SystemExit("Unsupported: sign is not an integer expression")
+    out += ["(* route/utils.py : longest_dimension_first, `sign = ...` *)",
+            "Definition ldf_sign (magnitude : Z) : Z :=\n  %s.\n" % v]
+    f = expr_Z(h["count"], {"magnitude": "Z"})
+    out += ["(* route/utils.py : longest_dimension_first, `for _ in range(...)` *)",
+            "Definition ldf_count (magnitude : Z) : Z :=\n  %s.\n" % f.as_Z(h["count"])]
+    out += ["(* route/utils.py : longest_dimension_first, the statement choosing (dx, dy) *)",
+            synth("ldf_delta_src", {"dimension": "Z", "sign": "Z"}, [h["delta"]], ["dx", "dy"], "Z2",
+                  pre="dx = 0\ndy = 0")]
+    out += ["(* route/utils.py : longest_dimension_first, the four statements advancing and wrapping (x, y);",
+            "   `width is not None` / `height is not None` are the boolean parameters *)",
+            synth("ldf_advance", {"x": "Z", "y": "Z", "dx": "Z", "dy": "Z", "has_width": "bool", "width": "Z",
+                                  "has_height": "bool", "height": "Z"},
+                  [h["a%d" % i] for i in range(4)], ["x", "y"], "Z2")]
+
+    # ---- concentric_hexagons
+    h = match_function(rig.geometry, "concentric_hexagons", T_HEXAGONS)
+    first = int_literal(h["first"], "first ring")
+    step = int_literal(h["step"], "layer step")
+    dirs = int_literal(h["dirs"], "direction list")
+    if type(first) is not int or type(step) is not int or not isinstance(dirs, list) or not all(
+            isinstance(d, tuple) and len(d) == 2 and all(type(c) is int for c in d) for d in dirs):
+        raise SystemExit("Unsupported: concentric_hexagons constants")
+    out += ["(* rig/geometry.py : concentric_hexagons, `range(<first>, radius + 1)`, `y -= <step>`, the list of",
+            "   directions walked round a ring *)",
+            D.definition("hexagon_first_ring", "Z", D.z(first)),
+            D.definition("hexagon_layer_step", "Z", D.z(step)),
+            D.definition("hexagon_dirs", "list (Z * Z)", D.lst(D.pair(D.z(a), D.z(b)) for a, b in dirs))]
     sys.stdout.write("\n".join(out) + "\n")
 
 
 if len(sys.argv) > 1 and sys.argv[1] == "shapes":
-    import json
-    shapes(json.loads(sys.argv[2]))
-    sys.exit(0)
-if len(sys.argv) > 1 and sys.argv[1] == "digests":
-    import importlib
-    import rig.geometry
-    utils = importlib.import_module("rig.place_and_route.route.utils")
-    for m, n in ((rig.geometry, "shortest_mesh_path"), (rig.geometry, "shortest_torus_path"),
-                 (rig.geometry, "concentric_hexagons"), (utils, "longest_dimension_first")):
-        print(n, digest(function_node(m, n)))
+    shapes()
     sys.exit(0)
 
 out = [D.HEADER % "dump_c11.py"]
